@@ -15,8 +15,9 @@
                              is false (output reduced to a point or a segment).
      cell_complete / cell_sound  the same for the four clips of clip_polygon.
 
-   NOT proved: that the output of a strictly convex polygon in general position IS strictly
-   convex (it is checked on instances by strictly_convexb); nothing for non-convex polygons. *)
+   That the output of a strictly convex polygon in general position IS strictly convex is proved
+   in Proofs/PolyStrictFacts.v (clip_strictly_convex, clip_halfplane_exact) and for the four clips
+   of the cell in Proofs/PolyExactFacts.v (cell_exact).  Nothing for non-convex polygons. *)
 From Coq Require Import List ZArith QArith Bool Qminmax Lqa Lia.
 From Koala Require Import Model.Clip Proofs.ClipFacts Proofs.PolyAreaFacts Proofs.PolyCellFacts.
 Import ListNotations.
